@@ -1,15 +1,141 @@
 package main
 
 import (
+	"flag"
 	"fmt"
-	"golang.org/x/tools/go/packages"
+	"os"
+	"sort"
+	"strings"
 )
 
 func main() {
-	cfg := &packages.Config{Mode: packages.LoadAllSyntax, Dir: "/repo", BuildFlags: []string{"-tags=verif"}}
-	pkgs, err := packages.Load(cfg, "./...")
-	fmt.Println(len(pkgs), err)
-	for _, p := range pkgs {
-		fmt.Println(p.PkgPath, len(p.Syntax), len(p.Errors))
+	if len(os.Args) < 2 {
+		fmt.Fprintln(os.Stderr, "usage: rvc verify|check|lemmas|selftest|replay ...")
+		os.Exit(2)
 	}
+	defer cleanupScratch()
+	switch os.Args[1] {
+	case "verify":
+		os.Exit(cmdVerify(os.Args[2:]))
+	default:
+		fmt.Fprintln(os.Stderr, "unknown command", os.Args[1])
+		os.Exit(2)
+	}
+}
+
+func cmdVerify(args []string) int {
+	fs := flag.NewFlagSet("verify", flag.ExitOnError)
+	repo := fs.String("repo", "/repo", "repository root")
+	funcs := fs.String("f", "", "comma-separated function keys or prefixes (default: all contracts)")
+	verbose := fs.Bool("v", false, "verbose")
+	unroll := fs.Int("unroll", 2, "unrolling bound for loops without invariants")
+	budget := fs.Float64("t", 10, "per-query budget (s)")
+	smoke := fs.Bool("smoke", false, "emit vacuity smoke obligations")
+	dump := fs.String("dump", "", "dump queries into this directory")
+	jobs := fs.Int("j", 16, "parallel solver jobs")
+	fs.Parse(args)
+	prog, err := loadProgram(*repo)
+	if err != nil {
+		fmt.Fprintln(os.Stderr, "load:", err)
+		return 2
+	}
+	opts := &Options{Unroll: *unroll, Budget: *budget, Smoke: *smoke, Verbose: *verbose, Jobs: *jobs, DumpDir: *dump}
+	var keys []string
+	for k := range prog.Contracts {
+		if prog.Contracts[k].Iface {
+			continue
+		}
+		if *funcs != "" {
+			ok := false
+			for _, f := range strings.Split(*funcs, ",") {
+				if k == f || strings.HasPrefix(k, f) {
+					ok = true
+				}
+			}
+			if !ok {
+				continue
+			}
+		}
+		keys = append(keys, k)
+	}
+	sort.Strings(keys)
+	bad := 0
+	var all []*Obligation
+	var results []*FuncResult
+	for _, k := range keys {
+		fi := prog.Funcs[k]
+		if fi == nil {
+			fmt.Printf("ORPHAN contract %s: no such function\n", k)
+			bad++
+			continue
+		}
+		fr := verifyFunc(prog, fi, prog.Contracts[k], opts)
+		results = append(results, fr)
+		all = append(all, fr.Obls...)
+	}
+	discharge(all, opts)
+	for _, fr := range results {
+		n, ok := 0, 0
+		for _, o := range fr.Obls {
+			if o.Smoke {
+				continue
+			}
+			n++
+			if o.Res.Status == "unsat" {
+				ok++
+			}
+		}
+		status := "OK"
+		if ok != n || len(fr.SpecErrors) > 0 || fr.Crashed != "" {
+			status = "FAIL"
+			bad++
+		}
+		if fr.Trusted {
+			status = "TRUSTED"
+		}
+		fmt.Printf("%-7s %s  %d/%d obligations  gen %.2fs word=%v\n", status, fr.Key, ok, n, fr.GenTime, fr.WordMode)
+		for _, s := range fr.SpecErrors {
+			fmt.Println("    SPEC ERROR:", s)
+		}
+		if fr.Crashed != "" {
+			fmt.Println("    CRASH:", fr.Crashed)
+		}
+		for _, s := range fr.Unsupported {
+			fmt.Println("    unsupported:", s)
+		}
+		for _, s := range fr.Unrolled {
+			fmt.Println("    bounded:", s)
+		}
+		if *verbose {
+			for _, s := range fr.Assumptions {
+				fmt.Println("    assumes:", s)
+			}
+			for _, s := range fr.Inlined {
+				fmt.Println("    inlined:", s)
+			}
+		}
+		for _, o := range fr.Obls {
+			if o.Smoke {
+				if o.Res.Status == "unsat" {
+					fmt.Printf("    VACUOUS %s (%s): false derivable\n", o.Name, o.Pos)
+					bad++
+				}
+				continue
+			}
+			if o.Res.Status != "unsat" || *verbose {
+				b := ""
+				if o.Bounded > 0 {
+					b = fmt.Sprintf(" bounded(%d)", o.Bounded)
+				}
+				fmt.Printf("    %-8s %s [%s %.2fs]%s %s  -- %s\n", o.Res.Status, o.Name, o.Res.Solver, o.Res.Time, b, o.Pos, o.Desc)
+				if o.Res.Status == "error" {
+					fmt.Println("      ", strings.SplitN(o.Res.Output, "\n", 3)[0])
+				}
+			}
+		}
+	}
+	if bad > 0 {
+		return 1
+	}
+	return 0
 }
